@@ -35,6 +35,53 @@ def isNaked (s : String) : Bool :=
 /-- the string contains a `?` somewhere -/
 def hasQ (s : String) : Bool := s.toList.contains '?'
 
+/-! ### strings that mix text and variables (`"id-?w"`)
+
+For every binding the regexp `\?name\b` is replaced by the text of the value. Modelled where the outcome does not depend on
+the order in which Go visits the bindings: every binding name is `?` + an identifier, and a value inserted into a string is
+a scalar whose text contains no `?` (it could be taken for a variable by a later replacement), no `$` (`ReplaceAllString`
+expands it) and no `\`. Then `\?name\b` matches exactly the tokens `?` + maximal run of word characters that equal the
+name: `?user` does not match inside `?userId`. A token directly followed by another `?` is not modelled either (replacing the second
+first glues its text to the first). Everything else answers "not modelled". -/
+
+def isWordChar (c : Char) : Bool := c == '_' || c.isAlphanum
+
+/-- the text `substituteString` inserts for a scalar value (a string as it is, anything else as JSON text) -/
+def scalarText : J → Option String
+  | .str s => if s.toList.any (fun c => c == '?' || c == '$' || c == '\\') then none else some s
+  | .num n => some (toString n)
+  | .bool b => some (if b then "true" else "false")
+  | .null => some "null"
+  | _ => none
+
+def takeWord : List Char → List Char × List Char
+  | [] => ([], [])
+  | c :: r => if isWordChar c then ((takeWord r).1.cons c, (takeWord r).2) else ([], c :: r)
+
+def substMixedAux (bs : Bs) : Nat → List Char → Except String (List Char)
+  | 0, _ => .error "not modelled: fuel"
+  | _, [] => .ok []
+  | fuel + 1, c :: r =>
+    if c == '?' then
+      let w := (takeWord r).1
+      let rest := (takeWord r).2
+      -- a variable right after this one (`?a?b`): whether `?a\b` still matches depends on whether `?b` was replaced first
+      if (match rest with | '?' :: _ => true | _ => false) then .error "not modelled: a variable right after another" else
+      match bs.get? (String.ofList ('?' :: w)) with
+      | some v =>
+        (match scalarText v with
+         | some t => (match substMixedAux bs fuel rest with | .ok o => .ok (t.toList ++ o) | .error e => .error e)
+         | none => .error "not modelled: a structured or special value inside a string")
+      | none => (match substMixedAux bs fuel rest with | .ok o => .ok ('?' :: w ++ o) | .error e => .error e)
+    else (match substMixedAux bs fuel r with | .ok o => .ok (c :: o) | .error e => .error e)
+
+def substMixed (bs : Bs) (s : String) : Except String J :=
+  if bs.all (fun kv => (match kv.1.toList with | '?' :: c :: rest => isNameStart c && rest.all isNameChar | _ => false)) then
+    (match substMixedAux bs (s.length + 1) s.toList with
+     | .ok o => .ok (.str (String.ofList o))
+     | .error e => .error e)
+  else .error "not modelled: a binding whose name is not ? + identifier"
+
 /-- `substituteString` (see the header); `d` = `some DefaultVariableValue` when `UseDefaultVariableValue` is set -/
 def substStr (d : Option J) (bs : Bs) (s : String) : Except String J :=
   match bs.get? s with
@@ -80,6 +127,115 @@ end
 
 /-- `substituteInterface` under a control without `UseDefaultVariableValue`: an unbound naked variable is an error -/
 def substJ (bs : Bs) (t : J) : Except String J := substD none bs t
+
+/-! ### the extension used by the driver: mixed strings answered by `substMixed` (everything else as `substD`) -/
+
+def substStrX (d : Option J) (bs : Bs) (s : String) : Except String J :=
+  match bs.get? s with
+  | some v => .ok v
+  | none =>
+    if isNaked s then
+      (match d with
+       | some v => .ok v
+       | none => .error ("naked variable '" ++ s ++ "' unbound"))
+    else if hasQ s then substMixed bs s
+    else .ok (.str s)
+
+mutual
+def substDX (d : Option J) (bs : Bs) : J → Except String J
+  | .null => .ok .null
+  | .bool b => .ok (.bool b)
+  | .num n => .ok (.num n)
+  | .str s => substStrX d bs s
+  | .arr xs => match substDXL d bs xs with
+    | .ok ys => .ok (.arr ys)
+    | .error e => .error e
+  | .obj kvs => match substDXO d bs kvs with
+    | .ok r => .ok (.obj r)
+    | .error e => .error e
+def substDXL (d : Option J) (bs : Bs) : List J → Except String (List J)
+  | [] => .ok []
+  | x :: xs => match substDX d bs x with
+    | .error e => .error e
+    | .ok y => match substDXL d bs xs with
+      | .error e => .error e
+      | .ok ys => .ok (y :: ys)
+def substDXO (d : Option J) (bs : Bs) : List (String × J) → Except String (List (String × J))
+  | [] => .ok []
+  | (k, v) :: kvs =>
+    if hasQ k then .error ("not modelled: variable in map key '" ++ k ++ "'") else
+    match substDX d bs v with
+    | .error e => .error e
+    | .ok y => match substDXO d bs kvs with
+      | .error e => .error e
+      | .ok r => .ok ((k, y) :: r)
+end
+
+theorem substStrX_of_ok {d : Option J} {bs : Bs} {s : String} {r : J} (h : substStr d bs s = .ok r) : substStrX d bs s = .ok r := by
+  unfold substStr at h
+  unfold substStrX
+  split
+  · next v hg => simpa [hg] using h
+  · next hg =>
+    simp only [hg] at h
+    split
+    · next hn => simpa [hn] using h
+    · next hn =>
+      simp only [hn, Bool.false_eq_true, if_false] at h
+      split
+      · next hq => simp [hq] at h
+      · next hq => simpa [hq] using h
+
+mutual
+/-- the extension is conservative: wherever `substD` answers, `substDX` answers the same -/
+theorem substDX_of_ok {d : Option J} {bs : Bs} : ∀ (t r : J), substD d bs t = .ok r → substDX d bs t = .ok r
+  | .null, r, h => by simpa [substD, substDX] using h
+  | .bool _, r, h => by simpa [substD, substDX] using h
+  | .num _, r, h => by simpa [substD, substDX] using h
+  | .str s, r, h => by
+    simp only [substD] at h
+    simp only [substDX]
+    exact substStrX_of_ok h
+  | .arr xs, r, h => by
+    simp only [substD] at h
+    simp only [substDX]
+    split at h
+    · next ys hy => rw [substDXL_of_ok xs ys hy]; exact h
+    · cases h
+  | .obj kvs, r, h => by
+    simp only [substD] at h
+    simp only [substDX]
+    split at h
+    · next ys hy => rw [substDXO_of_ok kvs ys hy]; exact h
+    · cases h
+theorem substDXL_of_ok {d : Option J} {bs : Bs} : ∀ (xs ys : List J), substDL d bs xs = .ok ys → substDXL d bs xs = .ok ys
+  | [], ys, h => by simpa [substDL, substDXL] using h
+  | x :: xs, ys, h => by
+    simp only [substDL] at h
+    simp only [substDXL]
+    split at h
+    · cases h
+    · next y hy =>
+      split at h
+      · cases h
+      · next zs hz => rw [substDX_of_ok x y hy, substDXL_of_ok xs zs hz]; exact h
+theorem substDXO_of_ok {d : Option J} {bs : Bs} :
+    ∀ (kvs r : List (String × J)), substDO d bs kvs = .ok r → substDXO d bs kvs = .ok r
+  | [], r, h => by simpa [substDO, substDXO] using h
+  | (k, v) :: kvs, r, h => by
+    simp only [substDO] at h
+    simp only [substDXO]
+    split at h
+    · cases h
+    · next hq =>
+      simp only [hq, if_false]
+      split at h
+      · cases h
+      · next y hy =>
+        split at h
+        · cases h
+        · next r' hr => rw [substDX_of_ok v y hy, substDXO_of_ok kvs r' hr]; exact h
+end
 
 mutual
 /-- the fragment on which `substD` is the real code's answer -/
